@@ -95,6 +95,18 @@ pub fn invalid_catalogue() -> Vec<Op> {
         MoveCols(0, 0, 1, 1),
         MoveCols(0, 1, 1, -1),
         MoveCols(0, LC, 1, 1),
+        // groups of lines whose first line would land on the grid and whose last would not (directly, or because
+        // hidden lines in the landing zone lengthen the move: see the edge start states)
+        MoveCols(0, LC - 5, 2, 2),
+        MoveCols(0, LC - 5, 2, 5),
+        MoveCols(0, LC - 2, 2, 1),
+        MoveCols(0, 5, 2, -3),
+        MoveCols(0, 5, 2, -4),
+        MoveRows(0, LR - 5, 2, 2),
+        MoveRows(0, LR - 5, 2, 5),
+        MoveRows(0, LR - 2, 2, 1),
+        MoveRows(0, 5, 2, -3),
+        MoveRows(0, 5, 2, -4),
         RowsHeight(9, 1, 1, 30.0),
         RowsHeight(0, 0, 1, 30.0),
         RowsHeight(0, 1, 2, -1.0),
@@ -369,6 +381,38 @@ pub fn run(run: &mut Run) {
                 for u in [0usize, 1] {
                     states.push(("basic", vec![a.clone(), b.clone()], u));
                 }
+            }
+        }
+    }
+    // edge start states: content, sizes and hidden lines next to the last columns / rows and next to the first ones
+    {
+        use Op::*;
+        const LR: i32 = 1_048_576;
+        const LC: i32 = 16_384;
+        let right = vec![
+            Input(0, 1, LC - 5, s("a")),
+            Input(0, 1, LC - 4, s("b")),
+            Input(0, 1, LC, s("c")),
+            ColsWidth(0, LC - 4, LC - 4, 50.0),
+            ColsHidden(0, LC - 3, LC - 1, true),
+        ];
+        let bottom = vec![
+            Input(0, LR - 5, 1, s("a")),
+            Input(0, LR - 4, 1, s("b")),
+            Input(0, LR, 1, s("c")),
+            RowsHeight(0, LR - 4, LR - 4, 50.0),
+            RowsHidden(0, LR - 3, LR - 1, true),
+        ];
+        let topleft = vec![
+            Input(0, 5, 5, s("a")),
+            Input(0, 6, 6, s("b")),
+            ColsHidden(0, 2, 4, true),
+            RowsHidden(0, 2, 4, true),
+        ];
+        for st in [right, bottom, topleft] {
+            for u in [0usize, 1] {
+                states.push(("empty", st.clone(), u));
+                states.push(("basic", st.clone(), u));
             }
         }
     }
